@@ -1206,8 +1206,10 @@ def evalImport : PM (String × String) := do
   let t ← eat
   let (alias, t) ← (if t.ty == TT_IDENTIFIER then do let n ← eat; pure (t.val, n) else pure ("", t))
   if t.ty != TT_STRING_LITERAL then err else
-  let n ← eat
-  if n.ty != TT_NEWLINE && n.ty != TT_EOF then err else pure (alias, t.val)
+  let n ← peek
+  if n.ty != TT_NEWLINE && n.ty != TT_EOF then err else
+  -- only the newline is consumed: the end-of-file token stays for the statement loop (fix 7299276)
+  if n.ty == TT_NEWLINE then do let _ ← eat; pure (alias, t.val) else pure (alias, t.val)
 
 def tokensOf (src : Bytes) : Option (Array Tok) :=
   match Lexer.tokenize src with
